@@ -8,10 +8,26 @@ import sys
 from . import core
 
 
+def _die_with_parent():
+    """A shard whose parent (pv.cli) is gone must not keep burning a core (e.g. after the parent was killed)."""
+    import os
+    import threading
+    import time
+    parent = os.getppid()
+
+    def watch():
+        while True:
+            time.sleep(5)
+            if os.getppid() != parent:
+                os._exit(3)
+    threading.Thread(target=watch, daemon=True).start()
+
+
 def main(argv):
     pid, tier, seed, shard, nshards, out = argv[0], argv[1], int(argv[2]), int(argv[3]), int(argv[4]), argv[5]
     faulthandler.enable()
     sys.setrecursionlimit(100000)
+    _die_with_parent()
     from .cli import load_prop
     mod = load_prop(pid)
     rec = core.set_current(core.Rec(pid, tier, seed, shard, nshards))
